@@ -23,6 +23,8 @@ PRetLoop(i, exp, tag) == [Act("p-return") EXCEPT !.q = i, !.kind = "loopcap", !.
 Pump == Act("p-pump")
 LCallC(h, t) == [Act("l-call") EXCEPT !.h = h, !.tag = t, !.kind = "cancellable"]
 LCancel(t) == [Act("l-cancel") EXCEPT !.tag = t]
+LCallWC(h, t) == [Act("l-call") EXCEPT !.h = h, !.tag = t, !.kind = "withcap-c"]
+PRetRel(i, kind, tag) == [Act("p-return") EXCEPT !.q = i, !.kind = kind, !.cap = 0 - 1, !.tag = tag, !.rel = TRUE]
 OnCancel(tag, k) == [Act("a-oncancel") EXCEPT !.tag = tag, !.kind = k]
 
 Bases == {
@@ -36,6 +38,8 @@ Bases == {
   <<Boot, LBoot, LCall("boot", 101), PRet(0, "bootcap", 9, 0 - 1), PRet(1, "results", 0 - 1, 101), Call(2, 1, 1, "root", 5), Ret(1, "ok-nocap"), LRel("boot")>>,
   \* a local call is cancelled by its caller (Finish before the Return); the peer's Return arrives late, or never
   <<LBoot, PRet(0, "bootcap", 9, 0 - 1), LCallC("boot", 101), LCancel(101), PRet(1, "results", 0 - 1, 101), LCallC("boot", 102), PRet(2, "exception", 0 - 1, 102), LCancel(102), LRel("boot")>>,
+  \* a cancelled local call whose parameters carry a capability of this vat; the peer's late Return gives the references back (releaseParamCaps)
+  <<LBoot, PRet(0, "bootcap", 9, 0 - 1), LCallWC("boot", 101), LCancel(101), PRetRel(1, "results", 101), LCallWC("boot", 102), LCancel(102), PRetRel(2, "exception", 102), LRel("boot")>>,
   \* a method body that completes with a new capability when it is cancelled (by Close, by an abort, by an early Finish)
   <<Boot, Call(2, 1, 1, "root", 0 - 1), OnCancel(1, "ok-newcap"), Call(3, 1, 2, "root", 5), OnCancel(2, "ok-nocap"), Fin(2, FALSE)>>,
   \* embargo (spec/rpc/RpcEmbargo.tla, caller role): a local call pipelined on a question whose answer turns out to be a capability of
